@@ -18,6 +18,7 @@ def run(chk):
     if thorough:
         run_.vacuity_run(chk)
     tot = run_.replay(chk, rows, ('verify',), thorough, chk.seed, CLAUSES, 'constraint-verdict')
+    run_.report_sessions(chk, rows, 3000 if thorough else 300, chk.seed)
     r = rows[len(rows) // 2]
     chk.sample({'column': r['col'], 'constraints_in_family': len(r['cons']),
                 'one_case': next(c for c in r['cons'] if c['dem'])})
